@@ -8,7 +8,61 @@ import re
 import subprocess
 
 
+WRITERS_QUERY = """From Coq Require Import List String NArith Bool.
+From AGH Require Import Model.Writers Gen.Writers.
+Import ListNotations.
+Definition bad := filter (fun w => negb (writer_ok w)) writers.
+Definition over := filter (fun e => negb (count_ok writers e)) (exceptions ++ other_files).
+Definition missing := filter (fun e => match e with (f, fn, c) => negb (has_call writers f fn c) end) expected_sites.
+Eval vm_compute in (map (fun w => (w_file w, w_line w, w_func w, w_callee w, w_kind w)) bad).
+Eval vm_compute in (map (fun e => match e with (f, fn, c, n, _) => (f, fn, c, n) end) over).
+Eval vm_compute in missing.
+"""
+
+
+def writers_report(ctx):
+    """Names the call sites the reflective theorem of Proofs/Writers.v rejects
+    (the theorem itself only fails to compile): file, line, function, callee.
+    Judged by the same writer_ok / count_ok / expected_sites, evaluated in Coq."""
+    need = [os.path.join(ctx.COQ, "Model", "Writers.vo"), os.path.join(ctx.COQ, "Gen", "Writers.vo")]
+    if not all(os.path.exists(p) for p in need):
+        ctx.fail("proof", "writers table: Model/Writers.vo or Gen/Writers.vo was not built")
+        return 0
+    src = os.path.join(ctx.workdir, "writers_query.v")
+    with open(src, "w") as f:
+        f.write(WRITERS_QUERY)
+    rc, out = ctx.run(["coqc", "-Q", ctx.COQ, "AGH", "-w", "none", src], cwd=ctx.workdir, timeout=300)
+    if rc != 0:
+        ctx.fail("proof", "writers table: the query over Gen/Writers.v failed", detail=out[-2000:])
+        return 0
+    blocks = [" ".join(b.split()) for b in re.split(r"^\s*= ", out, flags=re.M)[1:]]
+    bad = re.findall(r'\("([^"]*)", (\d+)%?N?, "([^"]*)", "([^"]*)", (K\w+)\)', blocks[0]) if blocks else []
+    over = re.findall(r'\("([^"]*)", "([^"]*)", "([^"]*)", (\d+)', blocks[1]) if len(blocks) > 1 else []
+    missing = re.findall(r'\("([^"]*)", "([^"]*)", "([^"]*)"\)', blocks[2]) if len(blocks) > 2 else []
+    k = 0
+    for fl, line, fn, callee, kind in bad:
+        k += 1
+        what = ("file-writing call that is neither rename-based nor a listed exception: %s (%s) in %s at %s:%s"
+                % (callee, kind, fn, fl, line))
+        ctx.fail("property-failure", what, finding_key="writers-%s-%s-%s" % (fl, fn, callee), failing_input_found=True,
+                 detail={"case": {"id": 9000 + k, "desc": {"file": fl, "line": int(line), "function": fn, "callee": callee,
+                                                            "kind": kind, "judge": "Model.Writers.writer_ok = false"}}})
+    for fl, fn, callee, n in over:
+        k += 1
+        ctx.fail("property-failure", "more %s calls in %s (%s) than the %s listed as excused" % (callee, fn, fl, n),
+                 finding_key="writers-count-%s-%s-%s" % (fl, fn, callee), failing_input_found=True,
+                 detail={"case": {"id": 9000 + k, "desc": {"file": fl, "function": fn, "callee": callee, "allowed": int(n)}}})
+    for fl, fn, callee in missing:
+        k += 1
+        ctx.fail("property-failure", "the save path %s in %s (%s) is no longer found by the scanner: it was removed, renamed or "
+                 "rewritten with other calls" % (callee, fn, fl),
+                 finding_key="writers-missing-%s-%s-%s" % (fl, fn, callee), failing_input_found=True,
+                 detail={"case": {"id": 9000 + k, "desc": {"file": fl, "function": fn, "callee": callee}}})
+    return k
+
+
 def extra(ctx):
+    ctx.extra_coverage["c14_writers_rejected"] = writers_report(ctx)
     per_pkg, traces, syscalls, smax = {}, 0, 0, 0
     for p in sorted(glob.glob(os.path.join(ctx.workdir, "h*_s*", "C14_*.dist.json"))):
         d = json.load(open(p))
